@@ -274,9 +274,20 @@ func (e *Engine) discharge(res *HarnessResult, cfg RunConfig) {
 		r, m, _ := pool.Solve([]*Term{j.c.Assume, j.c.Cond}, vs)
 		j.c.Result, j.c.Model = r, m
 	})
+	// an assertion site inside a loop has one reachability twin per unrolled instance: the site is reached
+	// if any instance is
+	reachOK := map[string]bool{}
+	for _, c := range e.covers {
+		if strings.HasPrefix(c.Label, "reach:") && (c.Result == "sat" || c.Result == "dup") {
+			reachOK[c.Label+"@"+c.Pos] = true
+		}
+	}
 	for _, c := range e.covers {
 		isReach := strings.HasPrefix(c.Label, "reach:")
 		if c.Result == "dup" {
+			continue
+		}
+		if isReach && c.Result != "sat" && reachOK[c.Label+"@"+c.Pos] {
 			continue
 		}
 		if !isReach {
